@@ -57,6 +57,7 @@ class Recorder:
         self._saved = []
         self.dry = False
         self.treemax = 0
+        self.depth = 0
 
     # ---- patching
     def __enter__(self):
@@ -66,7 +67,11 @@ class Recorder:
 
         def wrap_boundary(cls):
             def contract_boundary_from_(self_, *a, **kw):
-                r = cls.contract_boundary_from(self_, *a, inplace=True, **kw)
+                rec.depth += 1
+                try:
+                    r = cls.contract_boundary_from(self_, *a, inplace=True, **kw)
+                finally:
+                    rec.depth -= 1
                 try:
                     rec.on_boundary(self_, a, kw)
                 except Exception as ex:  # noqa  (an observation that cannot be made is a machinery problem)
@@ -116,7 +121,8 @@ class Recorder:
         for k, nm in enumerate(["xrange", "yrange", "zrange"][: len(geo.dims)]):
             rg = args.get(nm)
             ranges.append((0, geo.dims[k] - 1) if rg is None else (min(rg), max(rg)))
-        self.steps.append(fw)
+        if self.depth == 0:
+            self.steps.append(fw)          # (nested calls: opposite environments of the full-bond mode)
         blocks, bonds = observe_boundary(tn, geo, ranges, ax)
         rec = {"ev": "handover", "what": "boundary", "side": fw, "blocks": blocks, "bonds": bonds}
         if lat.watch_value:
@@ -734,27 +740,36 @@ def env_jobs_2d(lat, rng, n, stats):
             stats["raised"] = stats.get("raised", 0) + 1
             continue
         for cap in caps_for(need, rng):
-            envs, ret, base = lat.run("environments:" + what, cfg, cap, call, "envs")
-            if ret["exc"] != "":
-                lat.recs.append(ret)
-                continue
-            L = {"x": lat.Lx, "y": lat.Ly}
-            for key, env in sorted(envs.items(), key=lambda kv: str(kv[0])):
-                if what == "plaq":
-                    (i0, j0), (a, b) = key
-                    claim = {lat.geo.sid(i, j) for i in range(lat.Lx) for j in range(lat.Ly)} - \
-                            {lat.geo.sid(i, j) for i in range(i0, i0 + a) for j in range(j0, j0 + b)}
-                    k = {"kind": "plaq", "i0": i0, "j0": j0, "xb": a, "yb": b, "side": "", "idx": 0, "final": False}
-                    absorbed = 0
-                else:
-                    side, idx = key
-                    claim = line_claim(lat, side, idx)
-                    n_lines = L[side[0]]
-                    absorbed = idx if "min" in side else (n_lines - 1 - idx)
-                    k = {"kind": "line", "side": side, "idx": int(idx), "i0": 0, "j0": 0, "xb": 0, "yb": 0,
-                         "final": bool(absorbed == n_lines - 1)}
-                lat.recs.append(env_record(lat, base, cap, env, claim, k, absorbed, bool(cfg.get("dense", False))))
+            run_envs(lat, "environments:" + what, cfg, cap, call, what)
         stats["environments:" + what] = stats.get("environments:" + what, 0) + 1
+
+
+def run_envs(lat, scheme, cfg, cap, call, what, model=None):
+    envs, ret, base = lat.run(scheme, cfg, cap, call, "envs", model=model)
+    if ret["exc"] != "":
+        lat.recs.append(ret)
+        return
+    if model is not None:
+        # the model's predictions are judged on a `return` record; environments have no scalar result
+        lat.recs.append(dict(ret, ev="return", cutoff0=False, result=[0, 0]))
+    L = {"x": lat.Lx, "y": lat.Ly}
+    for key, env in sorted(envs.items(), key=lambda kv: str(kv[0])):
+        if what == "plaq":
+            (i0, j0), (a, b) = key
+            claim = {lat.geo.sid(i, j) for i in range(lat.Lx) for j in range(lat.Ly)} - \
+                    {lat.geo.sid(i, j) for i in range(i0, i0 + a) for j in range(j0, j0 + b)}
+            k = {"kind": "plaq", "i0": i0, "j0": j0, "xb": a, "yb": b, "side": "", "idx": 0, "final": False}
+            absorbed = 0
+        else:
+            side, idx = key
+            claim = line_claim(lat, side, idx)
+            n_lines = L[side[0]]
+            absorbed = idx if "min" in side else (n_lines - 1 - idx)
+            k = {"kind": "line", "side": side, "idx": int(idx), "i0": 0, "j0": 0, "xb": 0, "yb": 0,
+                 "final": bool(absorbed == n_lines - 1)}
+        r = env_record(lat, base, cap, env, claim, k, absorbed, bool(cfg.get("dense", False)))
+        r["dangling_pos"] = bool(r["dangling"] > 0)
+        lat.recs.append(r)
 
 
 # =============================================================================== lattice menu
@@ -818,7 +833,7 @@ def run(ctx):
     quick = ctx.tier == "quick"
     rng = random.Random(1212 + ctx.seed)
 
-    model_cases(ctx)
+    mfails = model_cases(ctx, rng)
 
     stats, recs, nlat = {}, [], 0
     kinds = {}
@@ -845,7 +860,7 @@ def run(ctx):
         if r["ev"] in ("return", "env", "handover"):
             ctx.sample({k: v for k, v in r.items() if k not in ("net",)}, cap=5)
     fails = ctx.validate("C12_Trace", "Trace.cfg", recs, name="schemes", ntraces=nlat, chunk=6000)
-    finish(ctx, fails)
+    finish(ctx, mfails + fails)
 
 
 def finish(ctx, fails):
@@ -863,5 +878,153 @@ def finish(ctx, fails):
     ctx.judge([f for f in fails if not f["clause"].startswith("NOTE:")])
 
 
-def model_cases(ctx):
-    pass
+# =============================================================================== TLC model runs and S->C replay
+SWEEP_ACTIONS = ("Start", "Pick", "AbsorbRow", "Compress", "HandOver", "StoreEnv", "Return")
+
+
+def selftest(ctx, module, cfg, expect, what):
+    r = T.run_tlc(module, cfg, ctx.spec_dir, workers=2, allow_violation=True, scratch=ctx.scratch, timeout=600, heap="1g")
+    if r.violated != expect:
+        raise MachineryError("model self-test %s: expected %s to be violated, got %r" % (cfg, expect, r.violated))
+    ctx.extra.setdefault("model_selftests", []).append("%s: TLC finds a %s counterexample (%s)" % (cfg, expect, what))
+
+
+def model_cases(ctx, rng):
+    """exhaustive model runs, self-tests of the model, and the cases the model explored replayed into quimb"""
+    quick = ctx.tier == "quick"
+    ctx.model_check("MC_C12", "MC_quick.cfg" if quick else "MC_thorough.cfg", name="boundary-sweeps", require_actions=SWEEP_ACTIONS, timeout=2400)
+    ctx.model_check("MC_Tree", "MC_tree_quick.cfg" if quick else "MC_tree_thorough.cfg", name="tree-contraction",
+                    require_actions=("Contract", "Return"), timeout=2400)
+    selftest(ctx, "MC_C12", "MC_skipbond.cfg", "CapRespected", "last bond of a boundary line left uncompressed")
+    selftest(ctx, "MC_C12", "MC_alias.cfg", "EnvConsistent", "projector mode relabels stored environments in place (KF-C12-1), not excused")
+    if not quick:
+        selftest(ctx, "MC_C12", "MC_envshift.cfg", "EnvConsistent", "environment stored under the next key")
+        selftest(ctx, "MC_C12", "MC_keeptag.cfg", "SelectUnique", "inner site tag kept between layers")
+        selftest(ctx, "MC_Tree", "MC_tree_loose.cfg", "CapRespected", "bond of size cap+1 not compressed")
+
+    # ---- S->C: cases printed by the models
+    res = T.run_tlc("MC_C12", "MC_emit.cfg" if quick else "MC_emit_thorough.cfg", ctx.spec_dir, workers=1, scratch=ctx.scratch, timeout=1800)
+    cases = T.parse_printed_json(res.output)
+    if len(cases) < 500:
+        raise MachineryError("could not read the model's cases back (%d)" % len(cases))
+    tres = T.run_tlc("MC_Tree", "MC_tree_emit.cfg", ctx.spec_dir, workers=1, scratch=ctx.scratch, timeout=1800)
+    tcases = T.parse_printed_json(tres.output)
+    if len(tcases) < 500:
+        raise MachineryError("could not read the tree model's cases back (%d)" % len(tcases))
+    ctx.extra["model_cases"] = {"sweeps": len(cases), "trees": len(tcases)}
+
+    recs, ntr = [], 0
+    # sweeps: one uniform lattice per (size, flat/layered)
+    groups = {}
+    for c in cases:
+        groups.setdefault((c["Lx"], c["Ly"], c["ly"] != "flat"), []).append(c)
+    keys = sorted(groups)
+    if quick:
+        keys = [k for k in keys if k in ((3, 3, False), (2, 3, True), (4, 2, False))]
+    budget = 90 if quick else 900
+    per = max(8, budget // max(1, len(keys)))
+    replayed = 0
+    for (Lx, Ly, layered) in keys:
+        if layered and Lx * Ly > 9:
+            continue
+        hb = [[2] * Ly for _ in range(Lx)]
+        vb = [[2] * Ly for _ in range(Lx)]
+        if layered:
+            phys = [[2 if (i + j) == 0 else 1 for j in range(Ly)] for i in range(Lx)]
+            lat = Lattice(rng, 1000 + ntr, "layered", Lx=Lx, Ly=Ly, hb=hb, vb=vb, phys=phys, cplx=bool(ntr % 2))
+        else:
+            lat = Lattice(rng, 1000 + ntr, "2d", Lx=Lx, Ly=Ly, hb=hb, vb=vb, cplx=bool(ntr % 2))
+        ntr += 1
+        cs = groups[(Lx, Ly, layered)]
+        rng.shuffle(cs)
+        for c in cs[:per]:
+            replay_sweep_case(lat, rng, c)
+            replayed += 1
+        recs += lat.finish()
+    # trees
+    tg = {}
+    for c in tcases:
+        tg.setdefault(json_key(c["edges"]), []).append(c)
+    treplayed = 0
+    for k in sorted(tg):
+        cs = tg[k]
+        rng.shuffle(cs)
+        c0 = cs[0]
+        ge = [(u - 1, v - 1) for u, v, _ in c0["edges"]]
+        lat = Lattice(rng, 1000 + ntr, "graph", n=c0["n"], gedges=ge, sizes=[sz for _, _, sz in c0["edges"]], cplx=bool(ntr % 2))
+        ntr += 1
+        for c in cs[: (25 if quick else 250)]:
+            replay_tree_case(lat, rng, c)
+            treplayed += 1
+        recs += lat.finish()
+    ctx.extra["replayed_cases"] = {"sweeps": replayed, "trees": treplayed}
+    ctx.sample({"replayed_case": cases[0]})
+    fails = ctx.validate("C12_Trace", "Trace.cfg", recs, name="replay", ntraces=ntr, chunk=6000)
+    return fails
+
+
+def json_key(x):
+    import json
+    return json.dumps(x)
+
+
+VIA1D = ["dm", "zipup", "direct", "zipup-first", "fit", "src"]
+
+
+def replay_sweep_case(lat, rng, c):
+    mode = {"late": "mps", "early": "mps", "via1d": rng.choice(VIA1D), "proj": "projector2d", "fullbond": "full-bond"}[c["mode"]]
+    cfg = {"mode": mode, "model_mode": c["mode"], "sequence": list(c["seq"]), "closed": c["msep"] == 0, "task": c["task"], "ly": c["ly"]}
+    kw = {"mode": mode}
+    if c["mode"] == "early":
+        kw["compress_late"] = False
+    if c["ly"] == "kb":
+        kw["layer_tags"] = ("KET", "BRA")
+    elif c["ly"] == "bk":
+        kw["layer_tags"] = ("BRA", "KET")
+    model = {"model_steps": list(c["steps"])}
+    if c["mode"] != "early" and c["mode"] != "fullbond":
+        # (early: the model also counts the bonds to the inner line; full-bond: the opposite environments add their own)
+        model["model_need"] = int(c["need"])
+    need = max(1, int(c["need"]))
+    if c["mode"] == "fullbond":
+        need = None
+    if c["task"] == "envs":
+        def call(rec, cap):
+            return lat.tn.compute_environments(c["seq"][0], max_bond=cap, cutoff=0.0, **kw)
+        if need is None:
+            need = dry_need(lat, call) or 1
+        run_envs(lat, "replay:compute_environments", cfg, need, call, "line", model=model)
+        return
+    if c["task"] == "around":
+        kw["around"] = [tuple(c["target"])]
+        cfg["around"] = kw["around"]
+    if c["msep"] == 0:
+        kw.update(max_separation=0, max_unfinished=0)
+
+    def call(rec, cap):
+        return lat.tn.contract_boundary(max_bond=cap, cutoff=0.0, sequence=list(c["seq"]), **kw)
+    if need is None:
+        need = max(1, dry_need(lat, call) or 1)
+    lat.run("replay:contract_boundary", cfg, need, call, "tn" if c["task"] == "around" else "scalar", model=model)
+    if need > 1 and rng.random() < 0.3:
+        lat.run("replay:contract_boundary", cfg, rng.choice([1, need - 1]), call, "tn" if c["task"] == "around" else "scalar")
+
+
+def replay_tree_case(lat, rng, c):
+    path = tuple((a - 1, b - 1) for a, b in c["path"])
+    cfg = {"mode": "tree", "optimize": path, "compress_late": bool(c["late"]), "compress_span": (False if c["span"] == 0 else int(c["span"]))}
+    cmode = rng.choice(["basic", "auto"])
+
+    def call(rec, cap):
+        return lat.tn.contract_compressed(path, max_bond=cap, cutoff=0.0, compress_late=cfg["compress_late"], compress_span=cfg["compress_span"],
+                                          compress_mode=cmode, callback_pre_compress=rec.cb_pre, callback_post_compress=rec.cb_post, callback=rec.cb_step)
+    # at the model's cap (1) the set of compressions is determined: compare count and largest exact bond compressed
+    old = lat.run
+
+    res, ret, base = lat.run("replay:contract_compressed", cfg, int(c["cap"]), call, "scalar")
+    ncomp = sum(1 for r in lat.recs if r.get("run") == base["run"] and r["ev"] == "compress")
+    ret["steps"] = [ncomp]
+    ret["model_steps"] = [int(c["ncomp"])]
+    ret["model_need"] = int(c["needc"])
+    # and with the cap at the model's exact bond size nothing may be discarded
+    lat.run("replay:contract_compressed", cfg, max(1, int(c["need"])), call, "scalar")
